@@ -85,6 +85,14 @@ fn seg_text_range(s: &str, seg: &Seg) -> Option<(usize, usize)> {
 pub fn apply(src: &str, kind: &FaultKind, other: Option<&str>) -> Option<String> {
     match kind {
         FaultKind::Duplicate => Some(src.to_string()),
+        FaultKind::AlphabetSwap { seg } => {
+            let (a, b) = seg_text_range(src, seg)?;
+            let t = &src[a..b];
+            if !t.contains('-') && !t.contains('_') {
+                return None;
+            }
+            Some(format!("{}{}{}", &src[..a], t.replace('-', "+").replace('_', "/"), &src[b..]))
+        }
         FaultKind::BitFlip { seg, bit } => {
             let mut t = Tok::parse(src)?;
             let v = seg_mut(&mut t, seg)?;
